@@ -203,6 +203,8 @@ func runC04(c *Ctx) {
 		c.verdict(len(bad) == 0 && n >= 3, "blockManager | getheaders locators include the stored chain's locator", "-", fmt.Sprintf("%d request site(s), all derive their locator from BlockHeaders.LatestBlockLocator()", n), fmt.Sprintf("getheaders sent with a locator that does not include the stored chain's locator at %s (%d site(s) found, 3 tabled): after the peer reorganises away from our tip it answers from genesis and the client never learns the new branch", join(bad), n), sites...)
 	})
 
+	c.rule("C04.G1", "what a misbehaving peer sends never gets between the honest peer and the store: a headers message whose last header builds on nothing leaves the in-memory list ahead of the store if the link pre-check lets it through, and the honest peer's headers are then taken for duplicates: "+headersLinkedDoc, func() { c.headersLinked() })
+
 	c.rule("C04.O6", "the honest peer stays reachable for queries: "+workerPerPeerDoc, func() { c.workerPerPeer() })
 
 	c.rule("C04.O1", "progress steps (each a necessary condition of convergence): losing the sync peer re-selects one; a new sync candidate triggers startSync; a selected sync peer is asked for headers; a committed headers batch updates the header tip, wakes the filter-header sync and asks for more while not current; committed filter headers wake their waiters; an accepted peer is announced to the block manager and its departure too; the subscription manager is started before the broadcaster subscribes", func() {
